@@ -68,6 +68,18 @@ for shape, depth in [("S1", 0), ("S2", 0), ("S3", 1), ("S3", 2), ("S3", 3)]:
     else:
         if snap() != before:
             T.fail(f"set_shape_memo:{key}", "no-op-without-a-context")
+    # ---- set_shape_memo must also undo a pure OVERWRITE (no key added, so all lengths are unchanged)
+    if shape == "S3":
+        reset(shape, depth)
+        top = ST._shape_storage.memo_stack[-1]
+        snapshot = tuple(dict(d) for d in top)
+        top[1]["s"] = (True, (2, 3)); top[0]["a"] = 99            # same keys, new values
+        ST.set_shape_memo(*[dict(d) for d in snapshot])
+        T.case(("set-overwrite", key))
+        now = tuple(dict(d) for d in ST.get_shape_memo())
+        if now != snapshot:
+            T.fail(f"set_shape_memo:{key}:overwrite-only", "a-rollback-restores-overwritten-values-even-when-no-key-was-added", expected=repr(snapshot)[:200], actual=repr(now)[:200],
+                   snippet="import jaxtyping._storage as S; S._shape_storage.memo_stack=[({'a':1}, {'s':(True,(2,3))}, {}, {})]; S.set_shape_memo({'a':1}, {'s':(True,(1,3))}, {}, {}); print(S.get_shape_memo())")
     # ---- push / pop
     reset(shape, depth); before = snap()
     args = {"p": 1, "q": object()}
